@@ -21,7 +21,7 @@ from fractions import Fraction as F
 from typing import Any, Dict, List, Optional, Tuple
 
 from vf.common import chash
-from vf.gen.pdfw import Doc, N, Name, Ref, Stream, font_widths
+from vf.gen.pdfw import Doc, N, Name, Real, Ref, Stream, font_widths
 from vf.ref.gmodel import (IDENT, NEVER_SET, UNKNOWN, FontModel, Glyph, Op, TextModel, apply_pt, emit_tokens, fmt_num, mul)
 
 ID = "C05"
@@ -34,7 +34,7 @@ LEVEL_TEXT = (
 RULE = (
     "random content programs (20-70 operators quick) over q Q cm BT ET Tc Tw Tz TL Tf Ts Td TD Tm T* Tj TJ ' \" g rg k G RG K, cs/CS with the device colour spaces followed by sc/scn/SC/SCN (sometimes with an empty q Q between), "
     "and Do of form XObjects (own /Matrix, /Resources or the page's by omission, nested <=3) with dyadic operands; 2-3 simple "
-    "fonts per page with random /Widths (incl. 0 and halves), sizes incl. negative and fractional; malformed occurrences "
+    "fonts per page (a fifth of them Type 3 with /FontMatrix scale 1/1000, 1/100 or 1/512; a third of the pages with an Identity-H composite font) with random /Widths (incl. 0 and halves), sizes incl. negative and fractional; malformed occurrences "
     "(missing / ill-typed operands) of every operator, each followed by a well-formed instance; program emitted as one stream "
     "and as Contents arrays split at white space (white space kept on one side). distinct = distinct content bytes; "
     "non-trivial = >=1 glyph shown and >=5 distinct operators. Not generated: q/Q with anything between them inside text objects, Contents split "
@@ -54,9 +54,10 @@ REL = 1e-9
 def minimums(tier: str) -> Dict[str, int]:
     if tier == "quick":
         return {"evaluations": 1000, "distinct": 900, "glyphs_compared": 20000, "glyph_matrices_asserted": 15000, "form_invocations": 400,
-                "malformed_ops": 1500, "split_contents_docs": 300, "seen:operators": 26, "glyphs_two_byte_font": 2000, "glyphs_cid32_two_byte": 60}
+                "malformed_ops": 1500, "split_contents_docs": 300, "seen:operators": 26, "glyphs_two_byte_font": 2000, "glyphs_cid32_two_byte": 60, "glyphs_type3_font_matrix": 2500}
     return {"evaluations": 30000, "distinct": 28000, "glyphs_compared": 600000, "glyph_matrices_asserted": 450000,
-            "form_invocations": 25000, "malformed_ops": 45000, "split_contents_docs": 9000, "seen:operators": 26}
+            "form_invocations": 25000, "malformed_ops": 45000, "split_contents_docs": 9000, "seen:operators": 26,
+            "glyphs_two_byte_font": 50000, "glyphs_cid32_two_byte": 1500, "glyphs_type3_font_matrix": 60000}
 
 
 def shards(tier: str, seed: int) -> List[Dict[str, Any]]:
@@ -107,6 +108,21 @@ def gen_fonts(rng: random.Random, prefix: str, k: int) -> Tuple[Dict[str, FontMo
         rn = "F%d" % (i + 1)
         if i == cid_at:
             fonts[rn], res[rn] = gen_cid_font(rng, rn, "%s-%s" % (prefix, rn))
+            continue
+        if rng.random() < 0.2:
+            # a Type 3 font: widths are in glyph space and /FontMatrix maps them to text space (TJ adjustments stay in
+            # thousandths of text space whatever the font matrix is, 9.4.3)
+            sc = rng.choice([F(1, 1000), F(1, 100), F(1, 512), F(1, 100)])
+            unit = int(1 / sc)
+            widths = [rng.choice([0, unit // 4, unit // 2, unit, (unit * 3) // 4, unit // 8]) for _ in range(256)]
+            dsc = rng.choice([-unit // 4, 0, -unit // 8])
+            fname = "%s-%s" % (prefix, rn)
+            fonts[rn] = FontModel(rn, fname, 0, widths, 0, dsc * sc * 1000, wscale=sc)
+            res[rn] = {"Type": N("Font"), "Subtype": N("Type3"), "FontBBox": [0, dsc, unit, unit + dsc], "FontMatrix": [Real(str(float(sc))), 0, 0, Real(str(float(sc))), 0, 0],
+                       "CharProcs": {}, "Encoding": {"Type": N("Encoding"), "BaseEncoding": N("WinAnsiEncoding"), "Differences": []},
+                       "FirstChar": 0, "LastChar": 255, "Widths": widths,
+                       "FontDescriptor": {"Type": N("FontDescriptor"), "FontName": N(fname), "Flags": 32, "FontBBox": [0, dsc, unit, unit + dsc],
+                                          "ItalicAngle": 0, "Ascent": unit + dsc, "Descent": dsc, "CapHeight": unit + dsc, "StemV": 80}}
             continue
         first = rng.choice([0, 32, 32, 40])
         n = rng.choice([95, 224, 60])
@@ -463,6 +479,8 @@ def compare(case: Dict[str, Any], rec: Any = None) -> List[Tuple[str, str]]:
             rec.count("glyphs_compared")
         where = "glyph #%d code %d (%s) depth %d" % (g.index, g.code, g.fontname, g.depth)
         mb = isinstance(g.font, FontModel) and g.font.multibyte
+        if rec is not None and isinstance(g.font, FontModel) and g.font.wscale != F(1, 1000):
+            rec.count("glyphs_type3_font_matrix")
         if rec is not None and mb:
             rec.count("glyphs_two_byte_font")
             if g.code == 32:
